@@ -229,6 +229,10 @@ func (a *An) AtomicScan(f *ssa.Function, cls classify, og *origins) []AtomicHit 
 	if si < 0 || f.Blocks == nil {
 		return nil
 	}
+	// a new function's lone unnamed bool result is an answer, not a verdict on its input
+	if a.C.isNew(f) && !isErrorType(f.Signature.Results().At(si).Type()) && !strings.Contains(strings.ToLower(f.Signature.Results().At(si).Name()), "ok") {
+		return nil
+	}
 	var rets []*ssa.Return
 	for _, b := range f.Blocks {
 		if b != f.Blocks[0] && len(b.Preds) == 0 {
@@ -464,6 +468,32 @@ func (a *An) compensated(f *ssa.Function, w ssa.Instruction, ef Effect, r *ssa.R
 // reachesAvoiding: is there a CFG path from just after `from` to `to` that executes none of cuts?
 // nonNil: values assumed non-nil (the failing error): branches testing them are followed consistently.
 func reachesAvoiding(from, to ssa.Instruction, cuts []ssa.Instruction, nonNil map[ssa.Value]bool) bool {
+	if from.Parent() != to.Parent() && theCtx != nil {
+		// through a new single-use helper: leave the helper by one of its returns without passing a cut, then go on
+		// behind its call; or reach the call and then the target from the helper's entry
+		if cs := theCtx.soleCall(from.Parent()); cs != nil {
+			out := false
+			for _, b := range from.Parent().Blocks {
+				if r, ok := b.Instrs[len(b.Instrs)-1].(*ssa.Return); ok && reachesAvoiding(from, r, cuts, nil) {
+					out = true
+				}
+			}
+			return out && reachesAvoiding(cs, to, cuts, nonNil)
+		}
+		if cs := theCtx.soleCall(to.Parent()); cs != nil {
+			for _, c := range cuts {
+				if c == ssa.Instruction(cs) {
+					return false
+				}
+			}
+			if !(from == ssa.Instruction(cs) || reachesAvoiding(from, cs, cuts, nonNil)) {
+				return false
+			}
+			entry := to.Parent().Blocks[0].Instrs[0]
+			return entry == to || reachesAvoiding(entry, to, cuts, nil) && !isCut(entry, cuts)
+		}
+		return false
+	}
 	cut := map[ssa.Instruction]bool{}
 	for _, c := range cuts {
 		cut[c] = true
@@ -517,6 +547,26 @@ func reachesAvoiding(from, to ssa.Instruction, cuts []ssa.Instruction, nonNil ma
 func (a *An) srcKey(v ssa.Value) string {
 	if c := statusCall(v); c != nil {
 		n := a.F.callName(c)
+		// a new single-use helper is named as the function it belongs to
+		if sc := c.Common().StaticCallee(); sc != nil && a.C.isNew(sc) && a.C.owner(sc) != sc {
+			n = a.C.Name(a.C.owner(sc))
+			// where the helper only hands on one kind of failure, that failure is the source
+			if si := statusIndex(sc.Signature); si >= 0 {
+				keys := map[string]bool{}
+				for _, r := range a.returnsOf(sc) {
+					rv := resolveLocal(r.Results[si])
+					if isNilConst(rv) {
+						continue
+					}
+					keys[a.srcKey(rv)] = true
+				}
+				if len(keys) == 1 {
+					for k := range keys {
+						return k
+					}
+				}
+			}
+		}
 		switch n {
 		case "newOtrError", "newOtrConflictError", "newOtrErrorf":
 			if len(c.Call.Args) > 0 {
@@ -553,4 +603,13 @@ func leftString(v ssa.Value) string {
 		}
 	}
 	return "_"
+}
+
+func isCut(in ssa.Instruction, cuts []ssa.Instruction) bool {
+	for _, c := range cuts {
+		if c == in {
+			return true
+		}
+	}
+	return false
 }
